@@ -25,7 +25,12 @@ from py_gql.schema.transforms import (
     VisibilitySchemaTransform,
     transform_schema,
 )
+from py_gql.exc import SchemaValidationError
 from py_gql.sdl import extend_schema
+from py_gql.sdl.schema_directives import (
+    SchemaDirective,
+    apply_schema_directives,
+)
 from py_gql.utilities import introspection_query
 
 from ..execsim import CaseResult
@@ -284,6 +289,31 @@ class Hide(VisibilitySchemaTransform):
         return self.what != ("input_field", typename, fieldname)
 
 
+class TagDirective(SchemaDirective):
+    """@tag: implemented, changes nothing."""
+    definition = "tag"
+
+
+class FlagDirective(SchemaDirective):
+    """@flag on a field removes that field (except interface keys)."""
+    definition = "flag"
+
+    def on_field(self, field):
+        return None if field.name != "id" else field
+
+
+def flagged_fields(schema):
+    out = set()
+    for tname, t in schema.types.items():
+        if isinstance(t, (ObjectType, InterfaceType)) \
+                and not tname.startswith("__"):
+            for f in t.fields:
+                if f.node is not None and f.name != "id" and any(
+                        d.name.value == "flag" for d in f.node.directives):
+                    out.add(("field", tname, f.name))
+    return out
+
+
 EXT_KINDS = ("object-field", "enum-value", "input-field", "union-member",
              "new-type", "interface-field-all")
 
@@ -338,13 +368,17 @@ def gen_extension(st, schema, counter):
 
 
 class Live:
-    __slots__ = ("schema", "fp", "attrs", "hidden", "renamed", "origin")
+    __slots__ = ("schema", "fp", "attrs", "hidden", "renamed", "origin",
+                 "maybe_invalid")
 
-    def __init__(self, schema, origin, hidden=(), renamed=False):
+    def __init__(self, schema, origin, hidden=(), renamed=False,
+                 maybe_invalid=False):
         self.schema = schema
         self.origin = origin
         self.hidden = set(hidden)
         self.renamed = renamed
+        # applying schema directives does not validate its result
+        self.maybe_invalid = maybe_invalid
         self.refresh()
 
     def refresh(self):
@@ -410,12 +444,14 @@ def run_machine(draws, state, tier):
     for step in range(n_ops):
         if V:
             break
-        op = st.weighted((3, 3, 2, 2, 3, 2), "op")
-        # 0 clone, 1 visibility, 2 camelcase, 3 chained, 4 extend, 5 use
+        op = st.weighted((3, 3, 2, 2, 3, 2, 2 if entry.kind == "sdl" else 0),
+                         "op")
+        # 0 clone, 1 visibility, 2 camelcase, 3 chained, 4 extend, 5 use,
+        # 6 schema directives (applied to a clone of the target)
         li = st.below(len(live), "target")
         src = live[li]
         opname = ("clone", "visibility", "camelcase", "chained", "extend",
-                  "use")[op]
+                  "use", "directives")[op]
         new = None
         hidden = None
         raised = None
@@ -425,6 +461,11 @@ def run_machine(draws, state, tier):
                 graphql_blocking(src.schema, "{ __typename }")
                 src.schema.to_string()
                 src.schema.validate()
+            except SchemaValidationError as err:
+                if not src.maybe_invalid:
+                    fail("source_modified", ("use", "invalid"),
+                         "live[%d] (%s) no longer validates: %r"
+                         % (li, src.origin, err))
             except Exception as err:  # noqa: B902
                 fail("source_modified", ("use", "unusable"),
                      "live[%d] (%s) can no longer be queried/printed: %r"
@@ -453,6 +494,10 @@ def run_machine(draws, state, tier):
             elif op == 3:
                 new = transform_schema(src.schema, Hide(hidden),
                                        CamelCaseSchemaTransform())
+            elif op == 6:
+                flagged = flagged_fields(src.schema)
+                new = apply_schema_directives(
+                    src.schema.clone(), [TagDirective, FlagDirective])
             else:
                 kind, doc = gen_extension(draws.stream("ext%d" % step),
                                           src.schema, counter)
@@ -469,7 +514,7 @@ def run_machine(draws, state, tier):
         res.count("op:" + opname)
 
         # ---- source untouched (clone-based operations) -------------------
-        if op in (0, 1, 2, 3):
+        if op in (0, 1, 2, 3, 6):
             fp = _struct.describe(src.schema, identity=True)
             d = _struct.diff(src.fp, fp)
             if d:
@@ -497,6 +542,8 @@ def run_machine(draws, state, tier):
 
         # ---- removal -------------------------------------------------------
         all_hidden = set(src.hidden)
+        if op == 6:
+            all_hidden |= flagged
         if hidden is not None:
             h = hidden
             if op == 3 and h[0] in ("field", "input_field"):
@@ -514,6 +561,10 @@ def run_machine(draws, state, tier):
                 break
             try:
                 intro = introspected_names(new)
+            except SchemaValidationError:
+                if op != 6 and not src.maybe_invalid:
+                    raise
+                intro = set()
             except Exception as err:  # noqa: B902
                 fail("removed_reachable", ("introspection", "failed"),
                      repr(err))
@@ -544,7 +595,8 @@ def run_machine(draws, state, tier):
                  "%s of live[%d] (%s): %s" % (opname, li, src.origin, d[1]))
             break
         nl = Live(new, "%s(live[%d])" % (opname, li), all_hidden,
-                  src.renamed or op in (2, 3))
+                  src.renamed or op in (2, 3),
+                  src.maybe_invalid or op == 6)
         live.append(nl)
         if len(live) > 5:
             live.pop(1)
@@ -552,6 +604,9 @@ def run_machine(draws, state, tier):
     if not V:
         for i, l in enumerate(live):
             try:
+                if l.maybe_invalid:
+                    l.schema.to_string()
+                    continue
                 graphql_blocking(l.schema, "{ __typename }")
                 l.schema.to_string()
                 if not l.renamed and not l.hidden:
